@@ -208,7 +208,7 @@ def sample_square(Y, m=1, unique=True, seed=None, m_fact=5, max_rep=100,
             return sample_square(Y, m, True, seed, 2*m_fact, max_rep-1,
                 float_cf=float_cf)
         else:
-            np.random.shuffle(I)
+            rand.shuffle(I)
 
     I = I[:m]
 
